@@ -6,6 +6,7 @@ import (
 	"encoding/xml"
 	"fmt"
 	"io"
+	"regexp"
 	"strings"
 
 	mxj "github.com/clbanning/mxj/v2"
@@ -95,7 +96,7 @@ func (n *xNode) render(b *strings.Builder, variant int) {
 }
 
 func renderDoc(n *xNode, variant int) []byte {
-	return []byte(strings.ReplaceAll(string(renderDocRaw(n, variant)), "~", "é"))
+	return []byte(subst1(string(renderDocRaw(n, variant))))
 }
 
 func renderDocRaw(n *xNode, variant int) []byte {
@@ -164,7 +165,7 @@ type decOpt struct {
 func parseOptCode(c string) decOpt {
 	parts := strings.SplitN(c, "|", 3)
 	f := parts[0]
-	return decOpt{f[0] == '1', f[1] == '1', f[2] == '1', f[3] == '1', f[4] == '1', f[5] == '1', f[6] == '1', parts[1], parts[2]}
+	return decOpt{f[0] == '1', f[1] == '1', f[2] == '1', f[3] == '1', f[4] == '1', f[5] == '1', f[6] == '1', subst1(parts[1]), parts[2]}
 }
 
 func (o decOpt) apply() {
@@ -410,14 +411,19 @@ func replayEnc(line []byte, a *Acc) {
 }
 
 // subst1 maps the non-ASCII placeholder of the specification's alphabet
-func subst1(s string) string { return strings.ReplaceAll(s, "~", "é") }
+func subst1(s string) string {
+	return strings.ReplaceAll(strings.ReplaceAll(s, "~", "é"), "`", "\u00a0")
+}
 
 func init() {
 	register("enc", &family{replay: replayEnc, serial: true,
 		rule: "one case = (document, symmetric option combination): decode, Map.Xml() compared byte for byte with the specification's rendering, XmlIndent token-equivalent, both re-decoded and compared with the first Map; non-trivial = the expected bytes contain an escaped character or the root has several children"})
 }
 
-func init() { tagged.Placeholders["~"] = "é" }
+func init() {
+	tagged.Placeholders["~"] = "é"
+	tagged.Placeholders["`"] = "\u00a0" // no-break space: white space for Unicode, DATA for XML (not trimmed)
+}
 
 // ---------------------------------------------------------------------------
 // family "encv" (C03): JSON-shaped values, exact bytes of Map.Xml / Xml(root) / AnyXml under both
@@ -502,6 +508,14 @@ func replayEncv(line []byte, a *Acc) {
 				name = `AnyXml(m,"r")`
 				b, err = mxj.AnyXml(map[string]interface{}(mv), "r")
 				bi, erri = mxj.AnyXmlIndent(map[string]interface{}(mv), "", "  ", "r")
+			case "xmlroota":
+				name = `Map.Xml("a")`
+				b, err = mv.Xml("a")
+				bi, erri = mv.XmlIndent("", "  ", "a")
+			case "anya":
+				name = `AnyXml(m,"a")`
+				b, err = mxj.AnyXml(map[string]interface{}(mv), "a")
+				bi, erri = mxj.AnyXmlIndent(map[string]interface{}(mv), "", "  ", "a")
 			}
 		}); p != "" {
 			one("encv:panic:"+c.Kind, name+": "+p)
@@ -588,6 +602,9 @@ type seqLine struct {
 
 var seqLineNo int
 
+// ">ws<" inside a comment, directive or processing instruction of the indented output
+var formattedBlunt = regexp.MustCompile(`(?s)<!--[^>]*>[\n\t\r ]*<.*?-->|<\?[^>]*>[\n\t\r ]*<.*?\?>`)
+
 func hasMixed(n *xNode) bool {
 	txt, el := false, false
 	for _, c := range n.Ch {
@@ -623,7 +640,7 @@ func replaySeq(line []byte, a *Acc) {
 	}
 	var sb strings.Builder
 	l.D.render(&sb, variant)
-	doc := []byte(strings.ReplaceAll(sb.String(), "~", "é"))
+	doc := []byte(subst1(sb.String()))
 	var pb strings.Builder
 	l.D.render(&pb, 0)
 	plain := pb.String()
@@ -701,8 +718,9 @@ func replaySeq(line []byte, a *Acc) {
 			one("seq:roundtrip:"+mixed, fmt.Sprintf("NewMapXmlSeq(MapSeq.Xml() = %q) = %s (err %v)", b, short(tagged.CanonGo(map[string]interface{}(ms2))), derr))
 			continue
 		}
-		// the formatted decoder on the indented output
-		if !hasMixed(l.D) {
+		// the formatted decoder on the indented output (it deletes white space between ANY '>' and '<' of the raw bytes,
+		// documented as blunt: a comment or instruction whose own text holds "> <" is outside what it promises)
+		if !hasMixed(l.D) && !formattedBlunt.Match(bi) {
 			ms3, ferr := mxj.NewMapFormattedXmlSeq(bi)
 			if ferr != nil || tagged.CanonGo(map[string]interface{}(ms3)) != g.R.Norm() {
 				one("seq:formatted", fmt.Sprintf("NewMapFormattedXmlSeq(%q) = %s (err %v), expected %s", bi, short(tagged.CanonGo(map[string]interface{}(ms3))), ferr, short(g.R.Norm())))
